@@ -77,6 +77,9 @@ SEEDS = (
     "let a 1.5\nlet n 1\nregister q[n]\nloop n { prepare_all; Rz q[0] a; measure_all }\nsubcircuit n { X q[0] }\n",
     "let a -1\nregister q[2]\nmap b q[1]\nloop 1 { prepare_all; X q[1]; measure_all }\n",
     "register q[2]\nmacro m a b { loop a { X b } }\nprepare_all\nm 1 q[0]\nmeasure_all\n",
+    # one replacement away from aliasing a let (whole / open-ended slice) and indexing the alias
+    "let a 2\nregister q[2]\nmap b q\ng b[0]\n",
+    "let a 1\nregister q[3]\nmap b q[1:]\ng b[0] a\n",
 )
 
 # module-name family: `from <name> usepulses *` for every name over these characters that is one token
